@@ -1,6 +1,7 @@
 """Property -> units / harnesses / stated assumptions.  Units are /verif/units/<name>.vrs."""
 
 UNIT_NOTES = {
+    "auth": "C12 server/auth.rs: validate_call / validate_notification / HttpNonBlockingAuth::{allow,new,validate} + per-method obligations generated from api.rs on every run",
     "dbfacade": "L4 Brc20ProgDatabase against the L3 CONTRACT FILES (tables opaque): heights, stamped setters, require_block_does_not_exist, set_block_hash, commit_changes, clear_caches, reorg",
     "blockdb": "L3 block-keyed table BlockDatabase<V>: get/set/commit/clear_cache/last_key/reorg over the DB shim (view = cache over disk)",
     "table": "L3 versioned table BlockCachedDatabase<K,V,C> over the DB shim: latest/set/unset/retrieve_cache/clear_cache (+commit/reorg/get_range/all)",
@@ -32,6 +33,17 @@ PROPS = {
         "level_note": COMMON_TRUST + "`Stop and reopen` is the DB shim's assumption that a reopened store has the same byte map. Engine-level guards (commit only with no block under construction) are covered under C05. Assumed contracts: table get_range/all/reorg.",
         "assumptions": ["reopen = same byte map (DB shim)", "table get_range/all contracts assumed (stage 2)"],
     },
+    "C12": {
+        "units": ["auth"],
+        "kani": [],
+        "level_text": "Proof of the decision kernel of authentication: validate_call/validate_notification return exactly `authorized || method not on the list` (an iff); the HTTP layer inserts the Authorized marker iff allow_all or the Authorization header equals the configured one and never rejects; new() never sets allow_all; per-method obligations regenerated from api.rs on every run: every RPC method is protected or on the statement's read-only allow-list, the 11 mutating methods named in the statement are protected one by one.",
+        "level_note": "Assumed: jsonrpsee Request/Notification/Extensions and hyper headers as opaque shims with uninterpreted observers; HashSet<String>::contains(&str) and Option<&str> equality wrappers (N21, N22); base64/format! of the header value not modelled. Not covered: RpcServiceT::{call,notification,batch} (return impl Future around jsonrpsee internals), the middleware wiring in start_rpc_server, `state unchanged after refusal`.",
+        "assumptions": [
+            "jsonrpsee/hyper request types are opaque shims (extensions().get::<Authorized>(), method_name(), headers().get(..), extensions_mut().insert(..))",
+            "call/notification/batch of RpcServiceT and the wiring in rpc_server.rs are outside the kernel",
+            "the method-list obligations are syntactic: api.rs `#[method(name=..)]` attributes and the INDEXER_METHODS literal are re-read on every run",
+        ],
+    },
     "C13": {
         "units": ["history", "table", "blockdb"],
         "kani": [],
@@ -58,7 +70,7 @@ NOT_APPLICABLE = {
     "C11": "quantifies over thread schedules; Kani has no threads, Verus would need permission types threaded through the code (different code)",
     "C17": "relational equivalence of two entry points of an external interpreter over arbitrary bytecode; no contract on code within reach expresses it",
 }
-PENDING = ["C02", "C04", "C05", "C06", "C08", "C09", "C12", "C14", "C15", "C18", "C19", "C20"]
+PENDING = ["C02", "C04", "C05", "C06", "C08", "C09", "C14", "C15", "C18", "C19", "C20"]
 for _p in PENDING:
     if _p not in PROPS:
         NOT_APPLICABLE[_p] = "check under construction in this commit (DESIGN.md 0); claimed once its units discharge"
